@@ -188,8 +188,10 @@ def gen_stream(rng, kmax=8, maxpay=4096):
             prev = rng.choice(msgs)
             msgs.append(dict(prev, payload=prev["payload"] if rng.random() < 0.3 else gen.rbytes(rng, n)))
             continue
-        msgs.append(dict(sid=rng.randrange(1 << 16), mid=rng.randrange(1 << 16), cid=rng.randrange(1 << 16),
-                         sess=rng.randrange(1 << 16), iv=rng.randrange(256), mt=rng.choice(refwire.MSG_TYPES),
+        # boundary-biased ids (0, 0x8000, 0xFFFF, 0xDEAD / 0xBEEF of the "magic cookie" message, ...): no id pair is special
+        msgs.append(dict(sid=gen.u16(rng)[0], mid=rng.choice((0x0000, 0x8000, 0x8100, gen.u16(rng)[0], gen.u16(rng)[0])),
+                         cid=rng.choice((0xDEAD, gen.u16(rng)[0])), sess=rng.choice((0xBEEF, gen.u16(rng)[0])),
+                         iv=rng.choice((1, rng.randrange(256))), mt=rng.choice(refwire.MSG_TYPES),
                          rc=rng.choice(refwire.RET_CODES), payload=gen.rbytes(rng, n)))
     return msgs
 
